@@ -136,7 +136,11 @@ class Model:
         for s, c in cs:
             ax.append(self.slen(c) == len(s.encode('utf-8')))
             ax.append(self.srunes(c) == len(s))
+        if self.regex_hook is not None:
+            ax.extend(self.regex_hook(cs))
         return ax
+
+    regex_hook = None
 
     def sort(self, name):
         return {'Int': self.Int, 'Bool': self.Bool, 'Real': self.Real, 'Str': self.Str, 'Any': self.Any}[name]
